@@ -60,41 +60,42 @@ theorem hoistEff_comp (sc : Scope) (a b : Tmpl) (l : Loc) :
   simp [hoistEff, lexOf, List.append_assoc]
 
 /-- executing the prologue of a guarded scope that is not the template body -/
-theorem exec_hoist : ∀ (t : Tmpl) (sc : Scope) (il bf : Bool), sc.top = false → sc.bind = false →
-    Good sc il bf t = true → ProEff c (hoist sc t) (hoistEff sc t) := by
+theorem exec_hoist : ∀ (t : Tmpl) (sc : Scope) (il bf cv : Bool), sc.top = false →
+    Good sc il bf cv false t = true → ProEff c (hoist sc t) (hoistEff sc t) := by
   intro t
   induction t with
   | seq a b iha ihb =>
-    intro sc il bf ht hbd h
+    intro sc il bf cv ht h
     simp only [Good, Bool.and_eq_true] at h
     simp only [hoist]
-    exact ((iha sc il bf ht hbd h.1).seq c (ihb sc il bf ht hbd h.2)).congr c
+    exact ((iha sc il bf cv ht h.1).seq c (ihb sc il bf cv ht h.2)).congr c
       (fun l => by rw [hoistEff_comp]; simp [hoistEff, hoistClos])
   | ite cnd a b iha ihb =>
-    intro sc il bf ht hbd h
+    intro sc il bf cv ht h
     simp only [Good, Bool.and_eq_true] at h
     simp only [hoist]
-    exact ((iha sc il bf ht hbd h.1.2).seq c (ihb sc il bf ht hbd h.2)).congr c
+    exact ((iha sc il bf cv ht h.1.2).seq c (ihb sc il bf cv ht h.2)).congr c
       (fun l => by rw [hoistEff_comp]; simp [hoistEff, hoistClos])
   | try_ a b iha ihb =>
-    intro sc il bf ht hbd h
+    intro sc il bf cv ht h
     simp only [Good, Bool.and_eq_true] at h
     simp only [hoist]
-    exact ((iha sc il bf ht hbd h.1).seq c (ihb sc il bf ht hbd h.2)).congr c
+    exact ((iha sc il bf cv ht h.1).seq c (ihb sc il bf cv ht h.2)).congr c
       (fun l => by rw [hoistEff_comp]; simp [hoistEff, hoistClos])
   | for_ x items b ih =>
-    intro sc il bf ht hbd h
+    intro sc il bf cv ht h
     simp only [Good, Bool.and_eq_true] at h
     simp only [hoist]
-    exact (ih sc _ bf ht hbd h.2).congr c (fun l => by simp [hoistEff, hoistClos])
+    exact (ih sc _ bf cv ht h.2).congr c (fun l => by simp [hoistEff, hoistClos])
   | while_ m b ih =>
-    intro sc il bf ht hbd h
+    intro sc il bf cv ht h
     simp only [Good] at h
     simp only [hoist]
-    exact (ih sc il bf ht hbd h).congr c (fun l => by simp [hoistEff, hoistClos])
+    exact (ih sc il bf cv ht h).congr c (fun l => by simp [hoistEff, hoistClos])
   | def_ name ps fl body _ =>
-    intro sc il bf ht hbd h
-    simp only [Good, Bool.and_eq_true, Bool.not_eq_true', bne_iff_ne, ne_eq] at h
+    intro sc il bf cv ht h
+    simp only [Good, Bool.false_eq_true, false_or, Bool.or_eq_true, Bool.and_eq_true, Bool.not_eq_true', bne_iff_ne,
+      ne_eq] at h
     obtain ⟨⟨⟨_, hc⟩, _⟩, _⟩ := h
     simp only [hoist, ht, Bool.false_eq_true, if_false, inlineDef, hc]
     intro n l σ o l' σ' he ho
@@ -102,9 +103,9 @@ theorem exec_hoist : ∀ (t : Tmpl) (sc : Scope) (il bf : Bool), sc.top = false 
     simp only [exec, Prod.mk.injEq] at he
     obtain ⟨rfl, rfl, rfl⟩ := he
     exact ⟨rfl, by simp [hoistEff, hoistClos, lexOf_eq], rfl⟩
-  | block _ _ _ _ _ => intro sc il bf _ _ h; simp [Good] at h
+  | block _ _ _ _ _ => intro sc il bf cv _ h; simp [Good] at h
   | _ =>
-    intro sc il bf _ _ _
+    intro sc il bf cv _ _
     simp only [hoist]
     exact (proeff_skip c).congr c (fun l => by simp [hoistEff, hoistClos])
 
@@ -188,62 +189,62 @@ theorem subScope_unbound (sc : Scope) (body : Tmpl) (h : sc.bind = false) :
     subScope sc sc.bind body = subScope sc false body := by rw [h]
 
 /-- the closures of a guarded scope with distinct names, against `Spec.declared` -/
-theorem hoist_closrel (lexv : NS) (mod : Nat) : ∀ (t : Tmpl) (sc : Scope) (il bf : Bool), sc.top = false →
-    sc.bind = false → Good sc il bf t = true → nodupB (declNames t) = true →
+theorem hoist_closrel (lexv : NS) (mod : Nat) : ∀ (t : Tmpl) (sc : Scope) (il bf cv : Bool), sc.top = false →
+    Good sc il bf cv false t = true → nodupB (declNames t) = true →
     ∀ x, x ≠ 0 → OptRel CloRel (lookup x (hoistClos lexv mod sc t)) (lookup x (Spec.declared false mod t)) := by
   intro t
   induction t with
   | seq a b iha ihb =>
-    intro sc il bf ht hbd h hnd x hx
+    intro sc il bf cv ht h hnd x hx
     simp only [Good, Bool.and_eq_true] at h
     simp only [declNames, Spec.declared, List.map_append] at hnd
     obtain ⟨na, nb, hdisj⟩ := nodupB_append _ _ hnd
     simp only [hoistClos, Spec.declared]
-    refine optrel_swap x (iha sc il bf ht hbd h.1 na x hx) (ihb sc il bf ht hbd h.2 nb x hx) ?_
+    refine optrel_swap x (iha sc il bf cv ht h.1 na x hx) (ihb sc il bf cv ht h.2 nb x hx) ?_
     rw [declared_names, declared_names]
     exact hdisj x
   | ite cnd a b iha ihb =>
-    intro sc il bf ht hbd h hnd x hx
+    intro sc il bf cv ht h hnd x hx
     simp only [Good, Bool.and_eq_true] at h
     simp only [declNames, Spec.declared, List.map_append] at hnd
     obtain ⟨na, nb, hdisj⟩ := nodupB_append _ _ hnd
     simp only [hoistClos, Spec.declared]
-    refine optrel_swap x (iha sc il bf ht hbd h.1.2 na x hx) (ihb sc il bf ht hbd h.2 nb x hx) ?_
+    refine optrel_swap x (iha sc il bf cv ht h.1.2 na x hx) (ihb sc il bf cv ht h.2 nb x hx) ?_
     rw [declared_names, declared_names]
     exact hdisj x
   | try_ a b iha ihb =>
-    intro sc il bf ht hbd h hnd x hx
+    intro sc il bf cv ht h hnd x hx
     simp only [Good, Bool.and_eq_true] at h
     simp only [declNames, Spec.declared, List.map_append] at hnd
     obtain ⟨na, nb, hdisj⟩ := nodupB_append _ _ hnd
     simp only [hoistClos, Spec.declared]
-    refine optrel_swap x (iha sc il bf ht hbd h.1 na x hx) (ihb sc il bf ht hbd h.2 nb x hx) ?_
+    refine optrel_swap x (iha sc il bf cv ht h.1 na x hx) (ihb sc il bf cv ht h.2 nb x hx) ?_
     rw [declared_names, declared_names]
     exact hdisj x
   | for_ y items b ih =>
-    intro sc il bf ht hbd h hnd x hx
+    intro sc il bf cv ht h hnd x hx
     simp only [Good, Bool.and_eq_true] at h
     simp only [hoistClos, Spec.declared]
-    exact ih sc _ bf ht hbd h.2 (by simpa [declNames, Spec.declared] using hnd) x hx
+    exact ih sc _ bf cv ht h.2 (by simpa [declNames, Spec.declared] using hnd) x hx
   | while_ m b ih =>
-    intro sc il bf ht hbd h hnd x hx
+    intro sc il bf cv ht h hnd x hx
     simp only [Good] at h
     simp only [hoistClos, Spec.declared]
-    exact ih sc il bf ht hbd h (by simpa [declNames, Spec.declared] using hnd) x hx
+    exact ih sc il bf cv ht h (by simpa [declNames, Spec.declared] using hnd) x hx
   | def_ name ps fl body _ =>
-    intro sc il bf ht hbd h hnd x hx
-    simp only [Good, Bool.and_eq_true, Bool.not_eq_true', bne_iff_ne, ne_eq, ht, Bool.false_eq_true, if_false] at h
-    obtain ⟨⟨⟨_, hc⟩, hndb⟩, _, hg⟩ := h
+    intro sc il bf cv ht h hnd x hx
+    simp only [Good, Bool.false_eq_true, false_or, Bool.or_eq_true, Bool.and_eq_true, Bool.not_eq_true', bne_iff_ne,
+      ne_eq, ht, if_false] at h
+    obtain ⟨⟨⟨_, hc⟩, hndb⟩, hg⟩ := h
     simp only [hoistClos, Spec.declared, Bool.false_eq_true, if_false, lookup]
     split
     · simp only [OptRel]
       refine ⟨?_, rfl, by simp⟩
-      have := FunRel.def_ (subScope sc false body) ps fl body (ownsLoops sc body) mod .def_
-        (.inl ⟨rfl, rfl, by simp [subScope]⟩) hc hndb hg
-      simpa [effLex_unbound sc body hbd, subScope_unbound sc body hbd] using this
+      exact FunRel.def_ (subScope sc sc.bind body) ps fl body (ownsLoops sc body) (effLex sc sc.bind body) mod .def_
+        (.inl ⟨rfl, rfl⟩) hc hndb hg
     · simp [OptRel]
-  | block _ _ _ _ _ => intro sc il bf _ _ h; simp [Good] at h
-  | _ => intro sc il bf _ _ _ _ x _; simp [hoistClos, Spec.declared, lookup, OptRel]
+  | block _ _ _ _ _ => intro sc il bf cv _ h; simp [Good] at h
+  | _ => intro sc il bf cv _ _ _ x _; simp [hoistClos, Spec.declared, lookup, OptRel]
 
 theorem hoistClos_ok {lexv : NS} (hlex : NSOK lexv) (mod : Nat) (sc : Scope) : ∀ (t : Tmpl),
     ∀ p ∈ hoistClos lexv mod sc t, FunOK p.2.fn ∧ NSOK p.2.lex := by
